@@ -248,13 +248,15 @@ func c43Case(rt *rapid.T, env *mEnv, rec *vh.Recorder) {
 			allSame = "-"
 		}
 	}
-	absentChosen := 0
+	absentChosen, refusals := 0, 0
 	var log []string
 	runPlan := func(plan []c43Step, oneCall bool) {
 		if oneCall {
 			st := plan[0].strategy
 			log = append(log, "resolve --"+st+" .")
-			c43Resolve(rt, c, tabs, plan, st, ".", &absentChosen)
+			if c43Resolve(rt, c, tabs, plan, st, ".", &absentChosen) {
+				refusals++
+			}
 			c43CheckAll(rt, se, "after dolt_conflicts_resolve --"+st+" .", tabs)
 			return
 		}
@@ -263,7 +265,9 @@ func c43Case(rt *rapid.T, env *mEnv, rec *vh.Recorder) {
 			switch stp.strategy {
 			case "ours", "theirs":
 				log = append(log, "resolve --"+stp.strategy+" "+tb.name)
-				c43Resolve(rt, c, tabs, []c43Step{stp}, stp.strategy, tb.name, &absentChosen)
+				if c43Resolve(rt, c, tabs, []c43Step{stp}, stp.strategy, tb.name, &absentChosen) {
+					refusals++
+				}
 			case "manual":
 				log = append(log, c43Manual(rt, c, tb, &absentChosen)...)
 			default:
@@ -349,6 +353,9 @@ func c43Case(rt *rapid.T, env *mEnv, rec *vh.Recorder) {
 	if scTab >= 0 {
 		cl = append(cl, "one_sided_add_column")
 	}
+	if refusals > 0 {
+		cl = append(cl, "resolve_theirs_refused_schema")
+	}
 	if anyConf == 0 {
 		cl = append(cl, "no_conflict")
 	}
@@ -362,7 +369,7 @@ func c43Case(rt *rapid.T, env *mEnv, rec *vh.Recorder) {
 
 // c43Resolve runs dolt_conflicts_resolve --ours/--theirs for the tables of steps (arg = one table
 // name or "." for all) and updates the model.
-func c43Resolve(rt *rapid.T, c *mCase, tabs []*c43Tab, steps []c43Step, strategy, arg string, absent *int) {
+func c43Resolve(rt *rapid.T, c *mCase, tabs []*c43Tab, steps []c43Step, strategy, arg string, absent *int) (refused bool) {
 	q := fmt.Sprintf("CALL dolt_conflicts_resolve('--%s','%s')", strategy, arg)
 	rt.Logf("SQL: %s", q)
 	err := c.se.Exec(q)
@@ -374,7 +381,7 @@ func c43Resolve(rt *rapid.T, c *mCase, tabs []*c43Tab, steps []c43Step, strategy
 	}
 	if err != nil {
 		if strategy == "theirs" && schemaDiffers && strings.Contains(err.Error(), "conflict schema's columns are not equal") {
-			return // documented refusal: nothing changes (verified by the caller's full comparison)
+			return true // documented refusal: nothing changes (verified by the caller's full comparison)
 		}
 		rt.Fatalf("%s failed: %v", q, err)
 	}
@@ -393,6 +400,7 @@ func c43Resolve(rt *rapid.T, c *mCase, tabs []*c43Tab, steps []c43Step, strategy
 		}
 		tb.confs = nil
 	}
+	return false
 }
 
 // c43Manual resolves the conflicts of one table by hand; returns the log of what was done.
